@@ -22,8 +22,14 @@ def source(name, fields, rows):
 class Outcome:
     """Result of running a flow: ok (results, descriptor, stats) or err (exception)."""
 
-    def __init__(self, ok, results=None, dp=None, stats=None, exc=None):
+    def __init__(self, ok, results=None, dp=None, stats=None, exc=None, logged=()):
         self.ok, self.results, self.dp, self.stats, self.exc = ok, results, dp, stats, exc
+        self.logged = list(logged)       # (level, message) log records emitted during the run
+
+    @property
+    def swallowed(self):
+        """Error log lines of a run that returned normally (safe_process logs and swallows CastError)."""
+        return [m for lvl, m in self.logged if lvl in ('ERROR', 'CRITICAL')]
 
     @property
     def names(self):
@@ -41,8 +47,9 @@ class Outcome:
 def run(steps, validate=False, via='results'):
     """Run Flow(*steps). validate=False -> results(on_error=None): the raw emitted rows."""
     d = df()
+    cap = None
     try:
-        with boot.quiet():
+        with boot.quiet() as cap:
             flow = d.Flow(*steps)
             if via == 'results':
                 if validate:
@@ -55,9 +62,9 @@ def run(steps, validate=False, via='results'):
                 dp, stats = ds.dp, ds.merge_stats()
             else:
                 raise ValueError(via)
-        return Outcome(True, results, copy.deepcopy(dp.descriptor), stats)
+        return Outcome(True, results, copy.deepcopy(dp.descriptor), stats, logged=cap.records)
     except Exception as e:
-        return Outcome(False, exc=e)
+        return Outcome(False, exc=e, logged=cap.records if cap else ())
 
 
 NUM = (int, float, decimal.Decimal)
